@@ -19,7 +19,7 @@ NOT_APPLICABLE = {
 CLAIMED = {
     "C02": dict(
         level="exploration",
-        technique="deterministic simulation: seeded single-actor histories (filter edits, applies, hierarchy refreshes, repeated exports under a virtual clock) over in-memory, file, basin-backed, hierarchy-child and tdms sources; generator-array oracle through h5py and dclab",
+        technique="deterministic simulation: seeded single-actor histories (filter edits, applies, hierarchy refreshes, repeated exports under a virtual clock) over in-memory, file, basin-backed, hierarchy-child and tdms sources; generator-array oracle through h5py and dclab; a first export attempt that fails at an injected write error/interrupt, then the repetition",
         design_ref="DESIGN.md section 4 (C02)",
         text=("Seeded histories (<=16 operations) over in-memory, lazily indexed in-memory, hdf5, basin-backed, hierarchy-child (depth <=2), "
               "tdms-fixture and re-opened product datasets: filter edits, applies, refreshes and selection sizes {0, 1, c-1, c, c+1, 2c, "
@@ -34,7 +34,7 @@ CLAIMED = {
     ),
     "C07": dict(
         level="exploration",
-        technique="deterministic simulation: seeded histories of origins, chained filtered exports (files and hierarchy children), explicit mapped/unmapped/internal basins, copy tools and a file-system actor (move together, move referrer, delete/rename/replace origin); provider-identifying data",
+        technique="deterministic simulation: seeded histories of origins, chained filtered exports (files and hierarchy children), explicit mapped/unmapped/internal basins, copy tools and a file-system actor (move together, move referrer, delete/rename/replace origin); provider-identifying data; transient read faults (OSError/interrupt at the k-th HDF5 read of an access, placed from the end via a twin object), then the repetition on the same object",
         design_ref="DESIGN.md section 4 (C07)",
         text=("Seeded histories over up to 18 files in three directories: origins whose scalar, image, mask, contour and trace values "
               "encode (measurement, event); exports with basins (filtered or not, with or without stored features, from files and from "
@@ -53,7 +53,7 @@ CLAIMED = {
     ),
     "C14": dict(
         level="exploration",
-        technique="deterministic simulation: generated basin graphs over local files and a simulated network (HTTP object hosts, stubbed S3, fake DCOR API), real availability-checker threads under a seeded baton-passing scheduler with network/lock/source-line yield points, weather faults, provider-identifying data, reachability reference model",
+        technique="deterministic simulation: generated basin graphs over local files and a simulated network (HTTP object hosts, stubbed S3, fake DCOR API), real availability-checker threads under a seeded baton-passing scheduler with network/lock/source-line yield points, weather faults, provider-identifying data, reachability reference model; transient HDF5 read faults inside a read (basin map / feature data), then the repetition",
         design_ref="DESIGN.md section 4 (C14), 3.5, 3.7",
         text=("Directed graphs of basin references over 1..6 datasets (chains, diamonds, self-references, k-cycles; file/http/s3/dcor "
               "edges, unmapped and mapped, feature lists, absolute/relative/dangling locations; run identifiers equal, extended, "
@@ -71,7 +71,7 @@ CLAIMED = {
     ),
     "C08": dict(
         level="exploration",
-        technique="deterministic simulation: seeded histories of compress/repack/condense/tdms2rtdc over a population of generated files (writer-made and raw-h5py storage layouts), tool chains, structural input/output oracle through h5py and dclab; each tool call in a forked child",
+        technique="deterministic simulation: seeded histories of compress/repack/condense/tdms2rtdc over a population of generated files (writer-made and raw-h5py storage layouts), tool chains, structural input/output oracle through h5py and dclab; each tool call in a forked child; planned in-process A-B-A copy histories",
         design_ref="DESIGN.md section 4 (C08)",
         text=("Seeded histories over a small population of files: inputs come from dclab's writer (optionally with basins) and from a "
               "raw-h5py layout generator (contiguous, chunked, gzip, lzf, Zstd<5, Zstd>=5, chunks longer than the data, variable- and "
@@ -104,7 +104,7 @@ CLAIMED = {
     ),
     "C13": dict(
         level="exploration",
-        technique="deterministic simulation: closure of the integrity checker over every producing operation of the file world plus seeded single/paired storage corruptions of durable state",
+        technique="deterministic simulation: closure of the integrity checker over every producing operation of the file world plus seeded single/paired storage corruptions of durable state; multi-session and checkpointed (rectify mid-session) writer products",
         design_ref="DESIGN.md section 4 (C13)",
         text=("Seeded histories produce files through the writer (complete metadata), filtered/unfiltered export, compress, repack, "
               "condense, split and join; every product must pass check_dataset without violations and a file and its compress/repack "
@@ -131,7 +131,7 @@ CLAIMED = {
     ),
     "C06": dict(
         level="exploration",
-        technique="deterministic simulation: seeded histories of configuration edits, temporary-feature assignments, reads and availability tests on a long-lived dataset vs. a freshly constructed one; independent emodulus precedence table",
+        technique="deterministic simulation: seeded histories of configuration edits, temporary-feature assignments, reads and availability tests on a long-lived dataset vs. a freshly constructed one; independent emodulus precedence table; repeated reads after refused computations, A-B-A assignments through different handles of a hierarchy",
         design_ref="DESIGN.md section 4 (C06)",
         text=("Seeded histories (<=40 operations) set, change and delete [calculation]/[imaging]/[setup] keys (emodulus scenarios A/B/C, "
               "crosstalk, pixel size, frame rate, flow rate, chip region), set and replace a temporary feature, read on-demand features "
@@ -145,7 +145,7 @@ CLAIMED = {
     ),
     "C03": dict(
         level="exploration",
-        technique="deterministic simulation: seeded histories of filter-setting edits and applications against a stateless specification (independent even-odd polygon test), fresh-dataset cross-check",
+        technique="deterministic simulation: seeded histories of filter-setting edits and applications against a stateless specification (independent even-odd polygon test), fresh-dataset cross-check; applications that fail (half-entered range, injected read fault of the backing file) followed by another application",
         design_ref="DESIGN.md section 4 (C03)",
         text=("Seeded histories (<=60 operations) of range set/change/remove (reversed, equal, tied with data values), polygon add/"
               "modify-in-place/invert/remove, invalid-removal and enable toggles, event limit set/clear, manual exclusions, reset and "
@@ -157,7 +157,7 @@ CLAIMED = {
     ),
     "C04": dict(
         level="exploration",
-        technique="deterministic simulation: per-level actors interleaved by a seeded scheduler over a hierarchy of depth 1..4, refresh of the youngest as synchronisation point, model of per-child excluded root events",
+        technique="deterministic simulation: per-level actors interleaved by a seeded scheduler over a hierarchy of depth 1..4, refresh of the youngest as synchronisation point, model of per-child excluded root events; transient read fault of the backing file inside a read through a child, then retry without refresh",
         design_ref="DESIGN.md section 4 (C04)",
         text=("One owner per hierarchy level edits filters (ranges, polygons), excludes events manually, reads features without "
               "refresh, assigns temporary features, changes root configuration, creates deeper children and applies filters on "
@@ -170,7 +170,7 @@ CLAIMED = {
     ),
     "C19": dict(
         level="exploration",
-        technique="deterministic simulation: seek/tell/read histories through HTTPFile/S3File against an in-process RFC 7233 range server behind a fault-injecting requests transport (drops, connect/read timeouts on a virtual clock), byte-exact model",
+        technique="deterministic simulation: seek/tell/read histories through HTTPFile/S3File against an in-process RFC 7233 range server behind a fault-injecting requests transport (drops, connect/read timeouts, stalled bodies, one-off 503 error replies on a virtual clock), byte-exact model",
         design_ref="DESIGN.md section 4 (C19), 3.7",
         text=("Seeded histories of seek(SET/CUR/END), tell, read(n) (n biased to chunk boundaries, multi-chunk spans, the end of the "
               "resource, 0 and -1), length and etag run through the real HTTPFile (and S3File over a stubbed object handle) with "
@@ -184,7 +184,7 @@ CLAIMED = {
     ),
     "C01": dict(
         level="exploration",
-        technique="deterministic simulation: seeded writer-session histories (close/reopen as restart) against an in-memory reference model, chunk-size knob, ddmin-minimised replay",
+        technique="deterministic simulation: seeded writer-session histories (close/reopen as restart) against an in-memory reference model, chunk-size knob, refused calls followed by further writes, ddmin-minimised replay",
         design_ref="DESIGN.md section 4 (C01)",
         text=("Seeded histories of RTDCWriter sessions (append/replace/reset, path or open h5py.File target, every feature kind, "
               "every split of the events over calls biased to the chunk length under a per-run CHUNK_SIZE_BYTES knob, logs incl. "
@@ -197,7 +197,7 @@ CLAIMED = {
     ),
     "C20": dict(
         level="exploration",
-        technique="deterministic simulation: seeded production histories (writer partitions, NaN placement, replace, legacy files, CLI tools, export, join, hierarchy refresh) with a summary oracle after every producing step",
+        technique="deterministic simulation: seeded production histories (writer partitions, NaN placement, replace, legacy files, CLI tools, export, join, hierarchy refresh) with a summary oracle after every producing step; appends repeated after an injected resize failure, two writers taking turns on one file",
         design_ref="DESIGN.md section 4 (C20)",
         text=("Seeded production histories create files through every path the statement names (append calls with any partition "
               "and NaN placement over one or several sessions, replace mode, stripped summaries, compress/repack/condense, "
@@ -209,7 +209,7 @@ CLAIMED = {
     ),
     "C10": dict(
         level="fault_enumeration",
-        technique="deterministic simulation: crash-point / I/O-fault enumeration at the h5py+pathlib seam, real process kills in forked children, reference-output oracle",
+        technique="deterministic simulation: crash-point / I/O-fault enumeration at the h5py+pathlib seam, real process kills in forked children, restart and follow-up tasks after failed runs, reference-output oracle",
         design_ref="DESIGN.md section 4 (C10), 3.6",
         text=("Every CLI task (compress, condense, repack, join, split, tdms2rtdc) is executed on generated inputs and "
               "pre-states; each intercepted mutating HDF5/file-system call of the task is a numbered fault point at which "
